@@ -21,7 +21,7 @@ CHECKS = {
              note='PIECE_HASH via indicator encoding justified by a syntactic XOR-linearity check on the IR; collision odds of random tables outside the claim', ref='DESIGN.md 2/C04'),
  'C05': dict(text='Level A: Search::Search (limits -> depth/time), go, iter_search, check_limits and stop are executed as compiled with the recursive search replaced by its contract; for every '
              'combination of limits, every root list (incl. searchmoves) and every delivery point of a stop, go() calls Position::uci exactly once with a root move and every reported PV starts with a root move.',
-             note='Level B (one search node: table move only used if in the list, PV assembled from searched moves) is not encoded yet; at most 3 (quick) / 12 (thorough) iterations complete; see assumptions', ref='DESIGN.md 2/C05'),
+             note='Level B: one node of search()/quiescence_search() as compiled with arbitrary (poisoned) table entry: PV head and stored move are always moves of the node, do/undo balanced. Level A bounded to 3 (quick) / 12 (thorough) completed iterations', ref='DESIGN.md 2/C05'),
  'C06': dict(text='The real Search::stop() is delivered at every point of the Level A schedule of go(); the solver proves that after it returned no further root search completes and go() returns with its bestmove. '
              'Data-race freedom of the flag is decided on the IR (the member must be std::atomic).',
              note='interleavings modelled sequentially (stop() is one store); isready and thread lifetime in uci.cpp not covered; wall-clock promptness not modelled', ref='DESIGN.md 2/C06'),
@@ -29,6 +29,9 @@ CHECKS = {
              'is_repeated/threefold_repetition are proved against arbitrary key histories (earlier occurrences, the current entry skipped); rule50 for all 256 clock values; '
              'enough_material for all piece-count vectors (0..10 per kind); is_draw is the disjunction. A lemma query proves the two formulations of the reference attack test equal on every board.',
              note='keys identify positions (C04); history maintenance is C02/C03; empty move list means no legal move (C01); history length bounded by the unwinding (12 quick / 100 thorough)', ref='DESIGN.md 2/C07'),
+ 'C08': dict(text='Inductive step at one node of search()/quiescence_search() executed as compiled (children by contract): values stay in [-VALUE_MATE, VALUE_MATE] (no +-infinity read as mate), a node without moves is mate only when in check, '
+             'at the root with the full window a mating move becomes PV head with value win_in(1) for every ordering and every value of the other moves; score2str prints mate distances in moves (ceil(plies/2)).',
+             note='partial by design: existence of a forced mate behind every announcement for whole searches is a whole-program property and is NOT claimed; model cuts and stubs listed in the evidence', ref='DESIGN.md 2/C08'),
  'C09': dict(text='In the Level A harness print_info is proved to be called with consecutive depths 1,2,..., never above a finite requested depth (0..60, clamping in the constructor included), '
              'bestmove comes no later than iteration d, and with searchmoves the root list is exactly the given moves and bestmove is one of them.',
              note='termination of the aspiration loop relies on the contract value range; bounded number of completed iterations', ref='DESIGN.md 2/C09'),
